@@ -99,6 +99,30 @@ def core(ctx, lib, basis, M, rmse, keys, counts, extra, Ts, label, perm):
             if got_p != got:
                 ctx.fail('SE-depends-on-mapping-order', '[%s] get_%s_SE(%r) = %r, re-ordered mapping gives %r' % (label, X, T, got, got_p))
                 return
+    # the same descriptors with the counts re-assigned (rotated), listed so that the sequence of counts in listing
+    # order is unchanged: a result remembered from the first mapping must not be served for the second
+    if len(keys) >= 2:
+        rk = keys[1:] + keys[:1]
+        rot = dict(zip(rk, counts))
+        xr = np.zeros(len(basis))
+        for k, c in rot.items():
+            xr[basis.index(k)] += c
+        qr = float(xr @ M @ xr)
+        if qr >= 0:
+            T = Ts[0]
+            try:
+                est_r = lib.Estimate(rot, 'thermochem')
+                for X in PROPS:
+                    got = quiet(getattr(est_r, 'get_%s_SE' % X), T)
+                    want = abs(quiet(getattr(rmse, 'get_' + X), T)) * math.sqrt(qr)
+                    ctx.count()
+                    if abs(got - want) > 1e-10 * abs(want) + 1e-100:
+                        ctx.fail('SE-not-the-quadratic-form:after-reassigned-counts', '[%s] after Estimate(%s), Estimate(%s).get_%s_SE(%r) = %r, reference %r'
+                                 % (label, mapping, rot, X, T, got, want))
+                        return
+            except Exception as e:
+                ctx.fail('SE-raises:%s' % type(e).__name__, '[%s] re-assigned mapping raised %s: %s' % (label, type(e).__name__, e))
+                return
     # scaling
     T = Ts[len(Ts) // 2]
     base = {X: quiet(getattr(est, 'get_%s_SE' % X), T) for X in PROPS}
